@@ -162,6 +162,22 @@ def _classify_def(ctx: Ctx, mi, value: ast.expr, known: dict):
     return None
 
 
+def home_of(m, modname, mi, fn, pred):
+    """fn itself if pred(fn); otherwise the module-level function of the same module, called by name from fn (one
+    level), for which pred holds: a step of a pipeline may live in a helper."""
+    if pred(fn):
+        return mi, fn
+    for c_ in ast.walk(fn):
+        if isinstance(c_, ast.Call) and isinstance(c_.func, ast.Name):
+            try:
+                mi2, fn2 = m.func(modname, c_.func.id)
+            except Exception:
+                continue
+            if fn2 is not fn and pred(fn2):
+                return mi2, fn2
+    return mi, fn
+
+
 def _inline_success_sites(ctx: Ctx) -> None:
     """run_once, the two test_decoder helpers and get_next_error: evaluate the
     inline success/failure expression as a truth table over A and B."""
@@ -174,6 +190,9 @@ def _inline_success_sites(ctx: Ctx) -> None:
     for modname, _, fname, var, negated in sites:
         mi, fn = m.func(modname, fname)
         site = site_of(mi, fn)
+        mi, fn = home_of(m, modname, mi, fn, lambda f: any(
+            isinstance(n_, ast.Assign) and len(n_.targets) == 1 and isinstance(n_.targets[0], ast.Name)
+            and n_.targets[0].id == var for n_ in ast.walk(f)))
         # find assignments in order; bind names to atoms by the kind of their defining expression
         kinds = {}
         target_expr = None
@@ -474,9 +493,13 @@ def _r043(ctx: Ctx) -> None:
     # run_once passes (total_error, code.logicals_x, code.logicals_z)
     m = ctx.model
     mi, fn = m.func('panqec.simulation._direct_simulation', 'run_once')
-    calls = [c for c in ast.walk(fn) if isinstance(c, ast.Call)
-             and ((isinstance(c.func, ast.Name) and c.func.id == 'get_effective_error')
-                  or (isinstance(c.func, ast.Attribute) and c.func.attr == 'logical_errors'))]
+
+    def _eff_calls(f):
+        return [c for c in ast.walk(f) if isinstance(c, ast.Call)
+                and ((isinstance(c.func, ast.Name) and c.func.id == 'get_effective_error')
+                     or (isinstance(c.func, ast.Attribute) and c.func.attr == 'logical_errors'))]
+    mi, fn = home_of(m, 'panqec.simulation._direct_simulation', mi, fn, lambda f: bool(_eff_calls(f)))
+    calls = _eff_calls(fn)
     ctx.need(len(calls) == 1, 'R04.3', site_of(mi, fn), 'run_once: effective-error computation not found')
     c = calls[0]
     if isinstance(c.func, ast.Name):
